@@ -112,6 +112,21 @@ fn replay_case(case: &Value) -> bool {
                 }
             }
         }
+        "loom" => {
+            // one loom harness, all its schedules
+            let idx = case["case_index"].as_u64().unwrap_or(0);
+            println!("loom harness #{idx} {}: threads {}", case["name"], case["threads"]);
+            let bin = crate::report::verif_root().join("loomcheck/target/release/loomcheck");
+            match std::process::Command::new(&bin).arg("--case").arg(idx.to_string()).output() {
+                Ok(out) => {
+                    for l in String::from_utf8_lossy(&out.stderr).lines().filter(|l| l.contains("NOT ") || l.contains("panicked") || l.contains("eadlock")).take(6) {
+                        println!("{l}");
+                    }
+                    println!("=> {}", if out.status.success() { "every schedule agrees with a sequential order" } else { "some schedule does not" });
+                }
+                Err(e) => println!("cannot start {}: {e}", bin.display()),
+            }
+        }
         "repl" => {
             let mut interp = Interpreter::with_stdlib();
             for g in case["groups"].as_array().cloned().unwrap_or_default() {
